@@ -34,6 +34,8 @@ CONFIGS = {
         # one CSV field feeding two columns
         ("fan-out", '<<"varchar", "int", "varchar">>', "<<0, 1, 0>>", "<<1, 2, 3>>", 2, ";", True, ALL, 2, 1),
         ("bulk", '<<"varchar", "int", "boolean">>', "<<0, 1, 2>>", "<<1, 2, 3>>", 3, ",", False, ALL, 1500, 1500),
+        # a separator outside ASCII (broken bar, two bytes in UTF-8), given on the command line like any other
+        ("wide-separator", '<<"varchar", "int", "boolean">>', "<<0, 1, 2>>", "<<1, 2, 3>>", 3, "U+00A6", False, ALL, 2, 1),
     ],
     "thorough": [
         ("full-identity", FULL, "<<0, 1, 2, 3>>", "<<1, 2, 3, 4>>", 4, ",", False, ALL, 4, 1),
@@ -52,6 +54,7 @@ CONFIGS = {
         ("long-mixed", '<<"varchar", "boolean">>', "<<1, 0>>", "<<1, 2>>", 2, "|", False,
          '{"valid", "malformed", "short"}', 7, 1),
         ("bulk", '<<"varchar", "int", "boolean">>', "<<0, 1, 2>>", "<<1, 2, 3>>", 3, ",", False, ALL, 3000, 3000),
+        ("wide-separator", '<<"varchar", "int", "boolean">>', "<<2, 0>>", "<<2, 3>>", 3, "U+20AC", True, ALL, 3, 1),
         ("bulk-wide", '<<"int", "varchar">>', "<<1, 0>>", "<<1, 2>>", 2, ";", True, '{"valid", "null", "badnum", "short"}', 2000, 2000),
     ],
 }
